@@ -2,6 +2,7 @@
 import itertools
 
 import bibtexparser
+from bibtexparser.model import Entry, Field
 from bibtexparser.splitter import Splitter
 
 from .. import bibgen, harness, refparse, splitcheck, tokens
@@ -19,7 +20,13 @@ def _compare(text, expected):
     if f:
         return f
     lib2 = bibtexparser.parse_string(text, parse_stack=[])
-    return splitcheck.compare_blocks(lib2.blocks, expected, ":parse_string")
+    f = splitcheck.compare_blocks(lib2.blocks, expected, ":parse_string")
+    # history independence: what a parse returned belongs to the caller; altering it must not leak into later parses
+    for b in lib.blocks + lib2.blocks:
+        if isinstance(b, Entry):
+            b.fields.append(Field("altered-by-caller", "x"))
+            b.parser_metadata["altered-by-caller"] = True
+    return f
 
 
 def o_deriv(deriv):
